@@ -297,14 +297,21 @@ structure Access where
 
 /-- Scripted device.  REJECTION PLAN: (1) accesses outside the image fail; (2) every access
 touching a `noAccess` range fails; (3) every write touching a `noWrite` range fails;
-(4) the `k`-th write attempt (counting from 0, all attempts) fails when `k ∈ rejW`.
-Rejected accesses change nothing but the log / write counter.  Reads are rejected only
-statically: a transient read failure is observable through any cache by construction. -/
+(4) the `k`-th write attempt (counting from 0, all attempts) fails when `k ∈ rejW`; these
+rejections are atomic (nothing changes but the log / write counter).
+(5) NON-ATOMIC rejection: when the `k`-th write attempt is otherwise acceptable and
+`rejP` maps `k ↦ (m, junk)`, the device reports an error but leaves
+`(data.take m ++ junk).take data.length` at the start of the written range: the first `m`
+bytes applied (a chunked write that failed half way, or with `m ≥ len` a write whose
+acknowledge was lost), or arbitrary bytes (`m = 0`).
+Reads are rejected only statically: a transient read failure is observable through any
+cache by construction. -/
 structure Dev where
   mem : Bytes
   noAccess : List (Int × Nat)
   noWrite : List (Int × Nat)
   rejW : List Nat
+  rejP : List (Nat × (Nat × Bytes))
   wcount : Nat
   /-- newest first -/
   log : List Access
@@ -333,9 +340,18 @@ def readOk (d : Dev) (a : Int) (l : Nat) : Bool :=
 def peek (d : Dev) (a : Int) (l : Nat) : Option Bytes :=
   if d.readOk a l then some (slice d.mem a.toNat l) else none
 
-def writeOk (d : Dev) (a : Int) (l : Nat) : Bool :=
+/-- the device would act on this write (possibly only partially) -/
+def allowed (d : Dev) (a : Int) (l : Nat) : Bool :=
   inImage d.mem a l && !touches d.noAccess a l && !touches d.noWrite a l
     && !d.rejW.contains d.wcount
+
+/-- the write succeeds -/
+def writeOk (d : Dev) (a : Int) (l : Nat) : Bool :=
+  d.allowed a l && (alGet d.wcount d.rejP).isNone
+
+/-- what a non-atomically rejected write leaves at the start of its range -/
+def leftover (data : Bytes) (mj : Nat × Bytes) : Bytes :=
+  (data.take mj.1 ++ mj.2).take data.length
 
 /-- `Device::read_mem` -/
 def read (d : Dev) (a : Int) (l : Nat) : R Bytes × Dev :=
@@ -345,9 +361,14 @@ def read (d : Dev) (a : Int) (l : Nat) : R Bytes × Dev :=
 
 /-- `Device::write_mem` -/
 def write (d : Dev) (a : Int) (data : Bytes) : R Unit × Dev :=
-  if d.writeOk a data.length then
-    (.ok (), { d with mem := patch d.mem a.toNat data, wcount := d.wcount + 1,
-                      log := ⟨true, a, data.length, data, true⟩ :: d.log })
+  if d.allowed a data.length then
+    match alGet d.wcount d.rejP with
+    | none =>
+      (.ok (), { d with mem := patch d.mem a.toNat data, wcount := d.wcount + 1,
+                        log := ⟨true, a, data.length, data, true⟩ :: d.log })
+    | some mj =>
+      (.err .device, { d with mem := patch d.mem a.toNat (leftover data mj), wcount := d.wcount + 1,
+                              log := ⟨true, a, data.length, leftover data mj, false⟩ :: d.log })
   else
     (.err .device, { d with wcount := d.wcount + 1,
                             log := ⟨true, a, data.length, [], false⟩ :: d.log })
@@ -438,12 +459,21 @@ def cachedRead (n : NodeId) (r : Reg) (a : Int) : M κ Bytes := fun s =>
   | none => readAndCache ops g n r a r.len s
 
 /-- tail of `RegisterBase::write_and_cache` once the address is known
-(`register_base.rs:127-139`, with the repairs of F-C04-2: `invalidate_cache_by(nid)`, and
-F-C04-1: a register that is not `WriteThrough` drops its own entries). -/
+(`register_base.rs:127-150`, with the repairs of F-C04-2: `invalidate_cache_by(nid)`;
+F-C04-1: a register that is not `WriteThrough` drops its own entries; F-C04-3: a write the
+port reports as failed drops the register's own entries too — the device may have applied
+part of it). -/
 def writeAt (n : NodeId) (r : Reg) (a : Int) (buf : Bytes) : M κ Unit := do
   invBy ops n
-  portWrite ops g r.port a buf
-  if r.mode = .writeThrough then cacheData ops n a r.len buf else invOf ops n
+  expectPort g r.port
+  -- `PortNode::write`
+  invBy ops r.port
+  fun s =>
+    match devWrite a buf s with
+    | (.ok _, s') =>
+      (if r.mode = .writeThrough then cacheData ops n a r.len buf else invOf ops n) s'
+    | (.err e, s') => (.err e, { s' with cache := ops.invalidateOf s'.cache n })
+    | (.panic, s') => (.panic, s')
 
 /-- `RegisterBase::address` with the selector evaluator passed in
 (`register_base.rs:141-152`, `elem_type.rs:304-318`) -/
